@@ -2,7 +2,7 @@
     cannot be weakened silently. *)
 From V Require Import Base.Util Gql.Ast Writer.Wop C16.Model C16.Spec
   C16.ProofsTemplate C16.ProofsString C16.ProofsStrip C16.ProofsDoc C16.ProofsReindent C16.ProofsGlue
-  C16.SpecLex C16.LexGuard C16.ProofsLex1 C16.ProofsLex2 C16.ProofsLex3 C16.Proofs C16.Properties.
+  C16.SpecLex C16.LexGuard C16.ProofsLex1 C16.ProofsBlock C16.ProofsLex2 C16.ProofsLex3 C16.Proofs C16.Properties.
 Local Open Scope N_scope.
 
 Check (C16_template_roundtrip : forall ops,
@@ -22,24 +22,56 @@ Check (C16_server_module_value : forall model_plugin d,
 Check (C16_print_never_glues_tsdoc : forall d, ProofsGlue.G (print_tsdoc d) = true).
 Check (C16_print_never_glues_tsdoc_ext : forall d, ProofsGlue.G (print_tsdoc_ext d) = true).
 Check (C16_print_never_glues_opdoc : forall d, ProofsGlue.G (print_opdoc d) = true).
-Check (C16_chunks_lex : forall ops ts,
-  TK ops ts -> ProofsGlue.G ops = true -> lex (just_run ops) = Some ts).
+Check (C16_chunks_lex : forall (val : strtok -> str) (sn : str -> str) (blk : str -> bool),
+  (forall v, is_multiline v = false -> val (TNormal v) = sn v) ->
+  (forall v, blk v = true ->
+     is_multiline v = true /\ plain_block v = true /\ forall ind, val (TBlock (rawb ind v)) = sn v) ->
+  forall ops ts, TK val sn blk ops ts -> ProofsGlue.G ops = true -> lex_with val (just_run ops) = Some ts).
+Check (C16_written_block_literal : forall v ind flag k,
+  is_multiline v = true -> plain_block v = true ->
+  ins ind flag (print_string v) ++ k = (if flag then spaces ind else []) ++ QQQ ++ rawb ind v ++ QQQ ++ k
+  /\ lex_string (QQQ ++ rawb ind v ++ QQQ ++ k) = Some (TBlock (rawb ind v), k)
+  /\ (no_cr v = true -> value_spec (TBlock (rawb ind v)) = block_string_value v)).
 Check (C16_print_tsdoc_lex : forall d,
-  tsdoc_lx d = true -> lex (just_run (print_tsdoc d)) = Some (tokens_of_tsdoc d)).
+  tsdoc_lx_raw d = true -> lex (just_run (print_tsdoc d)) = Some (tokens_of_tsdoc d)).
 Check (C16_print_tsdoc_ext_lex : forall d,
-  tsdoc_lx d = true -> lex (just_run (print_tsdoc_ext d)) = Some (tokens_of_tsdoc d)).
+  tsdoc_lx_raw d = true -> lex (just_run (print_tsdoc_ext d)) = Some (tokens_of_tsdoc d)).
 Check (C16_print_opdoc_lex : forall d,
-  opdoc_lx d = true -> lex (just_run (print_opdoc d)) = Some (tokens_of_opdoc d)).
+  opdoc_lx_raw d = true -> lex (just_run (print_opdoc d)) = Some (tokens_of_opdoc d)).
+Check (C16_print_tsdoc_lex_spec : forall d,
+  tsdoc_lx_spec d = true -> lex_spec (just_run (print_tsdoc d)) = Some (tokens_spec_tsdoc d)).
+Check (C16_print_tsdoc_ext_lex_spec : forall d,
+  tsdoc_lx_spec d = true -> lex_spec (just_run (print_tsdoc_ext d)) = Some (tokens_spec_tsdoc d)).
+Check (C16_print_opdoc_lex_spec : forall d,
+  opdoc_lx_spec d = true -> lex_spec (just_run (print_opdoc d)) = Some (tokens_spec_opdoc d)).
 Check (C16_tsdoc_roundtrip_any_parser :
   forall (R : tsdoc -> tsdoc -> Prop) (parse : list tok -> option tsdoc),
   (forall a, exists a', parse (tokens_of_tsdoc a) = Some a' /\ R a' a) ->
-  forall d, tsdoc_lx d = true ->
+  forall d, tsdoc_lx_raw d = true ->
   exists d', match lex (just_run (print_tsdoc_ext d)) with Some ts => parse ts | None => None end = Some d' /\ R d' d).
 Check (C16_opdoc_roundtrip_any_parser :
   forall (R : opdoc -> opdoc -> Prop) (parse : list tok -> option opdoc),
   (forall a, exists a', parse (tokens_of_opdoc a) = Some a' /\ R a' a) ->
-  forall d, opdoc_lx d = true ->
+  forall d, opdoc_lx_raw d = true ->
   exists d', match lex (just_run (print_opdoc d)) with Some ts => parse ts | None => None end = Some d' /\ R d' d).
+Check (C16_tsdoc_roundtrip_any_parser_spec :
+  forall (R : tsdoc -> tsdoc -> Prop) (parse : list tok -> option tsdoc),
+  (forall a, exists a', parse (tokens_spec_tsdoc a) = Some a' /\ R a' a) ->
+  forall d, tsdoc_lx_spec d = true ->
+  exists d', match lex_spec (just_run (print_tsdoc_ext d)) with Some ts => parse ts | None => None end = Some d' /\ R d' d).
+Check (C16_opdoc_roundtrip_any_parser_spec :
+  forall (R : opdoc -> opdoc -> Prop) (parse : list tok -> option opdoc),
+  (forall a, exists a', parse (tokens_spec_opdoc a) = Some a' /\ R a' a) ->
+  forall d, opdoc_lx_spec d = true ->
+  exists d', match lex_spec (just_run (print_opdoc d)) with Some ts => parse ts | None => None end = Some d' /\ R d' d).
+Check (C16_server_module_lexes : forall model_plugin d,
+  directives_placed model_plugin d = true ->
+  tsdoc_ok (spec_server_schema model_plugin d) = true ->
+  tsdoc_lx_spec (spec_server_schema model_plugin d) = true ->
+  exists t, module_value (server_module model_plugin d) = Some t
+            /\ lex_spec t = Some (tokens_spec_tsdoc (spec_server_schema model_plugin d))).
+Check (C16_template_single_write : forall x,
+  no_cr x = true -> eval_template (js_run [W x]) = Some (LF :: just_run [W x])).
 Check (C16_print_string_lex_partial : forall x rest,
   plain x = true -> starts_quote rest = false ->
   exists t, lex_string (print_string x ++ rest) = Some (t, rest) /\ value_nitrogql t = x).
@@ -97,11 +129,19 @@ Print Assumptions C16_print_never_glues_tsdoc.
 Print Assumptions C16_print_never_glues_tsdoc_ext.
 Print Assumptions C16_print_never_glues_opdoc.
 Print Assumptions C16_chunks_lex.
+Print Assumptions C16_written_block_literal.
 Print Assumptions C16_print_tsdoc_lex.
 Print Assumptions C16_print_tsdoc_ext_lex.
 Print Assumptions C16_print_opdoc_lex.
+Print Assumptions C16_print_tsdoc_lex_spec.
+Print Assumptions C16_print_tsdoc_ext_lex_spec.
+Print Assumptions C16_print_opdoc_lex_spec.
 Print Assumptions C16_tsdoc_roundtrip_any_parser.
 Print Assumptions C16_opdoc_roundtrip_any_parser.
+Print Assumptions C16_tsdoc_roundtrip_any_parser_spec.
+Print Assumptions C16_opdoc_roundtrip_any_parser_spec.
+Print Assumptions C16_server_module_lexes.
+Print Assumptions C16_template_single_write.
 Print Assumptions C16_print_string_lex_partial.
 Print Assumptions C16_print_string_lex_spec.
 Print Assumptions C16_strip_only_nitrogql.
